@@ -204,6 +204,30 @@ def self_field_owner(F, adt, v):
     return cur
 
 
+def field_owner(F, adt, field, depth=0):
+    """The ADT that declares `field`: `adt` itself, or - when the fields of `adt` were grouped into sub-structs (`self.core.state`,
+    `self.window.draws`) - the unique local struct among its fields (two levels deep) that declares it."""
+    a = None
+    for p_, r in F.adts.items():
+        if p_ == adt or path_ends(p_, adt):
+            a = r
+            break
+    if a is None or not a.get("variants"):
+        return adt
+    fields = a["variants"][0].get("fields", [])
+    if any(f["name"] == field for f in fields) or depth >= 2:
+        return adt
+    found = set()
+    for f in fields:
+        sub = f.get("adt")
+        if sub and sub in F.adts and sub != a.get("path") and (F.adts[sub].get("kind") == "struct"):
+            o = field_owner(F, sub, field, depth + 1)
+            oa = F.adts.get(o)
+            if oa and any(x["name"] == field for x in oa["variants"][0].get("fields", [])):
+                found.add(o)
+    return next(iter(found)) if len(found) == 1 else adt
+
+
 def field_writers(F, adt, field):
     """All MIR writes of `adt.field`: [(body, bb, stmt_or_term, value_tree, how)].
 
@@ -212,6 +236,7 @@ def field_writers(F, adt, field):
     out = []
     if adt is None:
         return out
+    adt = field_owner(F, adt, field)
     for b in F.bodies.values():
         for bi, blk in enumerate(b.blocks):
             if blk["cleanup"]:
